@@ -21,7 +21,7 @@ import (
 
 // FramesOpts selects the effects and shape of GenFrames.
 type FramesOpts struct {
-	// Effects: any of "convert", "etx", "transfer", "sstore", "selfdestruct" (as an ending)
+	// Effects: any of "convert", "etx", "transfer", "sstore", "log", "tstore", "selfdestruct" (as an ending)
 	Effects      []string
 	MaxDepth     int // 1..3 nested contracts below contract 0 (default 3)
 	FailPctTop   int // percentage of top-level bodies that end in a failure (default 8)
@@ -51,7 +51,7 @@ func (g *framesGen) body(a *Asm, level, maxLevel int, failPct int, tag string) {
 	t := g.t
 	n := rapid.IntRange(1, 3).Draw(t, tag+"steps")
 	var eff []string
-	for _, e := range []string{"convert", "etx", "transfer", "sstore"} {
+	for _, e := range []string{"convert", "etx", "transfer", "sstore", "log", "tstore"} {
 		if g.effects[e] {
 			eff = append(eff, e)
 		}
@@ -130,6 +130,12 @@ func (g *framesGen) body(a *Asm, level, maxLevel int, failPct int, tag string) {
 			a.Push(0).Push(0).Push(0).Push(0)
 			dynValue(a, k)
 			a.PushAddr(to).Op(vm.GAS, vm.CALL, vm.POP)
+		case "log":
+			g.kind("L%d:LOG1", level)
+			a.Push(k).Push(32).Push(0).Op(vm.LOG1)
+		case "tstore":
+			g.kind("L%d:TSTORE", level)
+			a.Push(k).Push(uint64(rapid.IntRange(0, 3).Draw(t, lbl+"tk"))).Op(vm.TSTORE)
 		default:
 			g.kind("L%d:SSTORE", level)
 			a.Push(uint64(rapid.IntRange(1, 9).Draw(t, lbl+"sv"))).Push(uint64(rapid.IntRange(0, 3).Draw(t, lbl+"sk"))).Op(vm.SSTORE)
